@@ -18,9 +18,9 @@ _H = "[./0-9A-Za-z]"
 
 
 def _int(s, allow_zero_pad=False):
-    """a decimal field, read for its VALUE: blanks around it, a plus sign, zero padding and digit-group underscores
-    (everything Python's int() reads) spell the same number"""
-    if not s.isascii():
+    """a decimal field: ASCII digits only (zero padding spells the same number; blanks, signs, underscores and non-ASCII digits
+    -- everything else Python's int() reads -- are no spelling a format documents)"""
+    if not (s.isascii() and s.isdigit()):
         raise ValueError
     return int(s)
 
@@ -68,45 +68,45 @@ def _hex(s):
 
 
 _RX = [
-    ("bcrypt_sha256", re.compile(r"^\$bcrypt-sha256\$v=([ \t+_0-9]+),t=(2[ab]?|2y),r=([ \t+_0-9]+)\$(.{22})\$(.{31})\Z")),
-    ("bcrypt_sha256_v1", re.compile(r"^\$bcrypt-sha256\$(2[ab]?|2y),([ \t+_0-9]+)\$(.{22})\$(.{31})\Z")),
-    ("bcrypt", re.compile(r"^\$(2[abxy]?)\$(\d\d)\$(.{22})(.{31})\Z")),
-    ("sha256_crypt", re.compile(rf"^\$5\$(?:rounds=([ \t+_0-9]+)\$)?({_H}{{0,16}})\$({_H}{{43}})\Z")),
-    ("sha512_crypt", re.compile(rf"^\$6\$(?:rounds=([ \t+_0-9]+)\$)?({_H}{{0,16}})\$({_H}{{86}})\Z")),
+    ("bcrypt_sha256", re.compile(r"^\$bcrypt-sha256\$v=([0-9]+),t=(2[ab]?|2y),r=([0-9]+)\$(.{22})\$(.{31})\Z")),
+    ("bcrypt_sha256_v1", re.compile(r"^\$bcrypt-sha256\$(2[ab]?|2y),([0-9]+)\$(.{22})\$(.{31})\Z")),
+    ("bcrypt", re.compile(r"^\$(2[abxy]?)\$([0-9][0-9])\$(.{22})(.{31})\Z")),
+    ("sha256_crypt", re.compile(rf"^\$5\$(?:rounds=([0-9]+)\$)?({_H}{{0,16}})\$({_H}{{43}})\Z")),
+    ("sha512_crypt", re.compile(rf"^\$6\$(?:rounds=([0-9]+)\$)?({_H}{{0,16}})\$({_H}{{86}})\Z")),
     ("md5_crypt", re.compile(rf"^\$1\$({_H}{{0,8}})\$({_H}{{22}})\Z")),
     ("apr_md5_crypt", re.compile(rf"^\$apr1\$({_H}{{0,8}})\$({_H}{{22}})\Z")),
-    ("sha1_crypt", re.compile(rf"^\$sha1\$([ \t+_0-9]+)\$({_H}{{0,64}})\$({_H}{{28}})\Z")),
-    ("pbkdf2_sha1", re.compile(r"^\$pbkdf2\$([ \t+_0-9]+)\$([^$]*)\$([^$]+)\Z")),
-    ("pbkdf2_sha256", re.compile(r"^\$pbkdf2-sha256\$([ \t+_0-9]+)\$([^$]*)\$([^$]+)\Z")),
-    ("pbkdf2_sha512", re.compile(r"^\$pbkdf2-sha512\$([ \t+_0-9]+)\$([^$]*)\$([^$]+)\Z")),
+    ("sha1_crypt", re.compile(rf"^\$sha1\$([0-9]+)\$({_H}{{0,64}})\$({_H}{{28}})\Z")),
+    ("pbkdf2_sha1", re.compile(r"^\$pbkdf2\$([0-9]+)\$([^$]*)\$([^$]+)\Z")),
+    ("pbkdf2_sha256", re.compile(r"^\$pbkdf2-sha256\$([0-9]+)\$([^$]*)\$([^$]+)\Z")),
+    ("pbkdf2_sha512", re.compile(r"^\$pbkdf2-sha512\$([0-9]+)\$([^$]*)\$([^$]+)\Z")),
     ("phpass", re.compile(rf"^\$[PH]\$({_H})({_H}{{8}})({_H}{{22}})\Z")),
     ("scrypt_7", re.compile(rf"^\$7\$({_H})({_H}{{5}})({_H}{{5}})([^$]*)\$({_H}+)\Z")),
-    ("scrypt", re.compile(r"^\$scrypt\$ln=([ \t+_0-9]+),r=([ \t+_0-9]+),p=([ \t+_0-9]+)\$([^$]*)\$([^$]+)\Z")),
+    ("scrypt", re.compile(r"^\$scrypt\$ln=([0-9]+),r=([0-9]+),p=([0-9]+)\$([^$]*)\$([^$]+)\Z")),
     ("ldap_salted_sha1", re.compile(r"^\{SSHA\}(.+)\Z", re.I | re.S)),
     ("ldap_sha1", re.compile(r"^\{SHA\}(.+)\Z", re.I | re.S)),
-    ("django_pbkdf2_sha256", re.compile(r"^pbkdf2_sha256\$([ \t+_0-9]+)\$([^$]+)\$([^$]+)\Z", re.S)),
+    ("django_pbkdf2_sha256", re.compile(r"^pbkdf2_sha256\$([0-9]+)\$([^$]+)\$([^$]+)\Z", re.S)),
     ("django_salted_sha1", re.compile(r"^sha1\$([^$]*)\$([0-9a-fA-F]{40})\Z")),
     ("mysql41", re.compile(r"^\*([0-9a-fA-F]{40})\Z")),
     ("bsdi_crypt", re.compile(rf"^_({_H}{{4}})({_H}{{4}})({_H}{{11}})\Z")),
     ("des_crypt", re.compile(rf"^({_H}{{2}})({_H}{{11}})\Z")),
-    ("sun_md5_crypt", re.compile(rf"^\$md5(?:,rounds=([ \t+_0-9]+))?\$([^$]*)(\$\$|\$)({_H}{{22}})\Z")),
+    ("sun_md5_crypt", re.compile(rf"^\$md5(?:,rounds=([0-9]+))?\$([^$]*)(\$\$|\$)({_H}{{22}})\Z")),
     ("ldap_salted_md5", re.compile(r"^\{SMD5\}(.+)\Z", re.I | re.S)),
     ("ldap_salted_sha256", re.compile(r"^\{SSHA256\}(.+)\Z", re.I | re.S)),
     ("ldap_salted_sha512", re.compile(r"^\{SSHA512\}(.+)\Z", re.I | re.S)),
     ("ldap_md5", re.compile(r"^\{MD5\}(.+)\Z", re.I | re.S)),
     ("django_salted_md5", re.compile(r"^md5\$([^$]*)\$([0-9a-fA-F]{32})\Z")),
-    ("django_pbkdf2_sha1", re.compile(r"^pbkdf2_sha1\$([ \t+_0-9]+)\$([^$]+)\$([^$]+)\Z", re.S)),
+    ("django_pbkdf2_sha1", re.compile(r"^pbkdf2_sha1\$([0-9]+)\$([^$]+)\$([^$]+)\Z", re.S)),
     ("atlassian_pbkdf2_sha1", re.compile(r"^\{PKCS5S2\}(.+)\Z", re.I | re.S)),
-    ("grub_pbkdf2_sha512", re.compile(r"^grub\.pbkdf2\.sha512\.([ \t+_0-9]+)\.([0-9a-fA-F]*)\.([0-9a-fA-F]+)\Z")),
+    ("grub_pbkdf2_sha512", re.compile(r"^grub\.pbkdf2\.sha512\.([0-9]+)\.([0-9a-fA-F]*)\.([0-9a-fA-F]+)\Z")),
     ("mssql2000", re.compile(r"^0[xX]0100([0-9a-fA-F]{8})([0-9a-fA-F]{40})([0-9a-fA-F]{40})\Z")),
     ("mssql2005", re.compile(r"^0[xX]0100([0-9a-fA-F]{8})([0-9a-fA-F]{40})\Z")),
     ("oracle11", re.compile(r"^S:([0-9a-fA-F]{40})([0-9a-fA-F]{20})\Z", re.I)),
-    ("dlitz_pbkdf2_sha1", re.compile(rf"^\$p5k2\$([ \t+_0-9a-fA-F]*)\$({_H}*)\$([^$]+)\Z")),
+    ("dlitz_pbkdf2_sha1", re.compile(rf"^\$p5k2\$([0-9a-fA-F]*)\$({_H}*)\$([^$]+)\Z")),
     ("django_des_crypt", re.compile(rf"^crypt\$({_H}*)\$({_H}{{2}})({_H}{{11}})\Z")),
     ("bigcrypt", re.compile(rf"^({_H}{{2}})((?:{_H}{{11}})+)\Z")),
-    ("scram", re.compile(r"^\$scram\$([ \t+_0-9]+)\$([^$]*)\$([^$]+)\Z")),
+    ("scram", re.compile(r"^\$scram\$([0-9]+)\$([^$]*)\$([^$]+)\Z")),
     ("cisco_type7", re.compile(r"^([ \t+_0-9]{2})((?:[0-9A-Fa-f]{2})*)\Z")),
-    ("fshp", re.compile(r"^\{FSHP(\d+)\|(\d+)\|(\d+)\}([A-Za-z0-9+/]+={0,3})\Z")),
+    ("fshp", re.compile(r"^\{FSHP([0-9]+)\|([0-9]+)\|([0-9]+)\}([A-Za-z0-9+/]+={0,3})\Z")),
 ]
 
 
@@ -254,7 +254,7 @@ def _decode(name, m):
     if name == "dlitz_pbkdf2_sha1":
         # rounds in hexadecimal; an EMPTY field is the format's way of writing its default of 400 (0x190), so '$p5k2$$' and
         # '$p5k2$190$' are one record. The salt is used as text; the digest is base64 with '.' for '+'
-        return (name, (int(g[0], 16) if g[0].strip() else 400,), g[1], ab64(g[2].replace("_", "/").replace("-", "+")))
+        return (name, (int(g[0], 16) if g[0] else 400,), g[1], ab64(g[2].replace("_", "/").replace("-", "+")))
     if name == "django_des_crypt":
         # 'crypt$<salt>$<des_crypt hash>'; Django >= 1.4 also writes an EMPTY salt field (the salt is the hash's first two characters
         # anyway) -- a documented second spelling of the same record; a non-empty field must agree with the hash
@@ -289,7 +289,7 @@ def _decode(name, m):
         enc = _hex(g[1])
         return (name, (), None, bytes(b ^ key[(salt + i) % len(key)] for i, b in enumerate(enc)))
     if name == "fshp":
-        variant, ssize, rounds = int(g[0]), int(g[1]), int(g[2])
+        variant, ssize, rounds = _int(g[0]), _int(g[1]), _int(g[2])
         raw = base64.b64decode(g[3] + "=" * (-len(g[3]) % 4))
         dsize = {0: 20, 1: 32, 2: 48, 3: 64}[variant]  # KeyError -> not an fshp string
         if len(raw) != ssize + dsize:
